@@ -141,6 +141,9 @@ def run_property(prop, harnesses, tier, seed, timeout, bounds, assumptions, func
     shutil.rmtree(wd, ignore_errors=True)
     os.makedirs(wd, exist_ok=True)
     os.makedirs(OUT + "/replays", exist_ok=True)
+    for fn in os.listdir(OUT + "/replays"):
+        if fn.startswith(prop + "-"):
+            os.remove(os.path.join(OUT + "/replays", fn))
     os.makedirs(OUT + "/evidence", exist_ok=True)
     tasks = []
     only = os.environ.get("VF_ONLY")
